@@ -35,10 +35,10 @@ theorem timeOK_same {now : Nat} {t t' : Task} (h : SameTiming t t') (ok : TimeOK
 theorem tstep_sameTiming {c : Cfg} {now qlen : Nat} {t t' : Task} {act : Act}
     (hcl : (∃ k a, act = .fire k a) ∨ (∃ k a w, act = .wTake k a w) ∨ (∃ k a h, act = .wStart k a h) ∨
       (∃ k a v e, act = .wEnd k a v e) ∨ (∃ k a, act = .wCheck k a) ∨ (∃ k a, act = .hook1 k a) ∨
-      (∃ k a, act = .wCas k a) ∨ (∃ k a, act = .wWrite k a) ∨ (∃ k a, act = .wClose k a))
+      (∃ k a, act = .wCas k a) ∨ (∃ k a, act = .wWrite k a) ∨ (∃ k a, act = .wClose k a) ∨ (∃ k a, act = .hook4 k a))
     (h : tstep c now qlen t act = some t') : SameTiming t t' := by
   rcases hcl with ⟨k, a, rfl⟩ | ⟨k, a, w, rfl⟩ | ⟨k, a, hon, rfl⟩ | ⟨k, a, v, e, rfl⟩ | ⟨k, a, rfl⟩ | ⟨k, a, rfl⟩ |
-      ⟨k, a, rfl⟩ | ⟨k, a, rfl⟩ | ⟨k, a, rfl⟩ <;>
+      ⟨k, a, rfl⟩ | ⟨k, a, rfl⟩ | ⟨k, a, rfl⟩ | ⟨k, a, rfl⟩ <;>
     simp only [tstep] at h <;> (repeat' split at h) <;> (try cases h) <;>
     (refine ⟨rfl, rfl, rfl, rfl, rfl, ?_⟩; intro b; simp only [Task.setAt, upd]; split <;> simp_all)
 
@@ -67,7 +67,11 @@ theorem time_tstep {c : Cfg} (hc : c.old = false) {now qlen : Nat} {t t' : Task}
       (tstep_sameTiming (Or.inr (Or.inr (Or.inr (Or.inr (Or.inr (Or.inr (Or.inr (Or.inl ⟨k, a, rfl⟩)))))))) h) ⟨t1, t2, t3, t4⟩
   case wClose k a =>
     exact timeOK_same
-      (tstep_sameTiming (Or.inr (Or.inr (Or.inr (Or.inr (Or.inr (Or.inr (Or.inr (Or.inr ⟨k, a, rfl⟩)))))))) h) ⟨t1, t2, t3, t4⟩
+      (tstep_sameTiming (Or.inr (Or.inr (Or.inr (Or.inr (Or.inr (Or.inr (Or.inr (Or.inr (Or.inl ⟨k, a, rfl⟩))))))))) h) ⟨t1, t2, t3, t4⟩
+  case hook4 k a =>
+    exact timeOK_same
+      (tstep_sameTiming (Or.inr (Or.inr (Or.inr (Or.inr (Or.inr (Or.inr (Or.inr (Or.inr (Or.inr ⟨k, a, rfl⟩))))))))) h)
+      ⟨t1, t2, t3, t4⟩
   all_goals
     simp only [tstep, hc, Bool.false_eq_true, ↓reduceIte] at h
     (repeat' split at h) <;> (try cases h) <;>
@@ -102,7 +106,7 @@ theorem own_mem {c : Cfg} {s : State} {k : Nat} {act : Act}
 def plain : Act → Bool
   | .busyTest _ | .discardCb _ | .loopTest _ | .hook3 _ | .selDone _ | .selCtx _ | .hook2 _ | .decide _ | .writeDE _
   | .waitDone _ | .cancel _ | .errTest _ | .onError _ | .wgDone _ | .fire _ _ | .wCheck _ _ | .hook1 _ _ | .wCas _ _
-  | .wWrite _ _ => true
+  | .wWrite _ _ | .hook4 _ _ => true
   | _ => false
 
 theorem step_plain {c : Cfg} {s : State} {act : Act} (hpl : plain act = true) :
@@ -149,6 +153,11 @@ theorem time_advance {c : Cfg} (hc : c.old = false) {s : State} {t' : Nat} (k : 
           have hncl : ((s.task k).at_ (s.task k).cur).pc ≠ .closed := by
             intro h; have := ax.1.2 h; rw [hcl] at this; cases this
           cases hpc' : ((s.task k).at_ (s.task k).cur).pc <;> simp [hpc', CPc.afterCas] at hac hncl
+          · have hm : Act.hook4 k (s.task k).cur ∈ taskActs c s k := by
+              simp only [taskActs, List.mem_append, List.mem_flatMap, List.mem_range]
+              exact Or.inr ⟨_, hcur, Or.inr (by rw [hpc']; simp)⟩
+            have := hqn _ rfl hm
+            simp [tstep, hpc', Act.task] at this
           · have hm : Act.wWrite k (s.task k).cur ∈ taskActs c s k := by
               simp only [taskActs, List.mem_append, List.mem_flatMap, List.mem_range]
               exact Or.inr ⟨_, hcur, Or.inr (by rw [hpc']; simp)⟩
